@@ -16,6 +16,7 @@ DECIDED = ("Writer (Display for Board, Debug for CastleRights) and reader (parse
            "in the same order with the same (side, colour) meaning, for all 16 subsets the reader rebuilds the subset, '-' is written/required exactly for the empty set; "
            "R5 en passant: for each file and side to move the written square parses back to the same file (file letter 'a'+f, rank digit 6/3) and ' - ' stands for no marker; "
            "R6 clocks: written half-move then full-move, read in the same order into the same fields, at most 4 digits fit u16; R7 Board::standard() is the standard position.")
+DECIDED = DECIDED + ' R8 premise re-run here: the derived state (checkers / pinned) of a parsed board is recomputed exactly, on every way out of update_pin_info (C03.R4, R6).'
 NOT_DECIDED = "round trip on arbitrary boards as strings (needs the loops' semantics on actual positions); equality of hash/derived state after a round trip (C04/C03 clauses)"
 EXPLANATION = ("K4 with the generic-iteration abstraction for the writer's loops and region analysis (between the parser's whitespace calls) for the reader; "
                "formatted output is modelled as ordered emit events through core::fmt.")
